@@ -239,15 +239,19 @@ def run(ctx) -> None:
         fparam_outer, fparam = fparam, g_filter
         rep.check("C10.R5", bool(afor) and isinstance(afor[0].iter, ast.Name) and afor[0].iter.id == g_recv, G, afor[0] if afor else G.node, "the generator consumes this stream's receive end", "the generator does not read the receive stream")
         for y in ys:
-            cts = controlling_tests(gcfg, y)
-            ok = False
-            for t, lab in cts:
-                e = t.ast
-                if lab == "t" and isinstance(e, ast.BoolOp) and isinstance(e.op, ast.Or) and len(e.values) == 2:
-                    a0, a1 = e.values
-                    if isinstance(a0, ast.Compare) and isinstance(a0.left, ast.Name) and a0.left.id == fparam and isinstance(a0.ops[0], ast.Is) and isinstance(a0.comparators[0], ast.Constant) and a0.comparators[0].value is None:
-                        if isinstance(a1, ast.Call) and isinstance(a1.func, ast.Name) and a1.func.id == fparam and len(a1.args) == 1:
-                            ok = True
+            from ..dataflow import ReachingDefs as _RD
+            from ..facts import Facts as _Facts
+
+            gfacts = _Facts(a, G, _RD(a, G))
+            lvn = afor[0].target.id if afor and isinstance(afor[0].target, ast.Name) else "event"
+            cond = ast.parse(f"{fparam} is None or {fparam}({lvn})", mode="eval").body
+            ghead = [x.id for x in gcfg.live_nodes() if x.kind == "for_next"]
+            # (i) whenever the yield is reached the condition holds; (ii) whenever an iteration
+            # ends without yielding the condition is false
+            ok = gfacts.implied(y.id, cond, True, within=ghead or None)
+            if ok and ghead:
+                skip_ok = not gfacts.possible(ghead[0], cond, True, within=ghead, avoid=[y.id]) if ghead[0] in gcfg.reach([d for d, lab in gcfg.nodes[ghead[0]].succ if lab == "t"], avoid=[y.id]) else True
+                ok = ok and skip_ok
             yv = [x for x in iter_own(gcfg.own_ast(y)) if isinstance(x, ast.Yield)]
             lv = afor[0].target.id if afor and isinstance(afor[0].target, ast.Name) else None
             val_ok = bool(yv) and isinstance(yv[0].value, ast.Name) and yv[0].value.id == lv
